@@ -563,6 +563,39 @@ def justpool(run, fx):
         run.broken('UNDO', 'justify record pool', 'expected the two record addresses (p, next) of the free-list loop, found %d' % n, fn.where())
 
 
+def bidicache(run, fx):
+    """REVERSEPAIR rests on reverseSlots seeing the SAME classification of a slot (base or combining mark, bidi class 16) every time it
+    looks: Segment::getSlotBidiClass computes the class from the glyph attribute once and caches it in the slot.  What it returns on
+    the miss is what it cached: the value handed to Slot::setBidiClass is not implicitly narrowed while the wider value is returned
+    (an attribute of 528 is class 16 on every later query and 528 on the first: the two reversals of one justify call treat the slot
+    differently and the line comes back permuted)."""
+    from .cfg import int_type
+    fn = fx.one('graphite2::Segment::getSlotBidiClass')
+    inst = 'getSlotBidiClass returns what it caches'
+    calls = calls_in(fn, 'graphite2::Slot::setBidiClass')
+    if len(calls) != 1:
+        run.broken('REVERSEPAIR', inst, 'expected one setBidiClass call in getSlotBidiClass, found %d' % len(calls), fn.where())
+        return
+    a = fn.N(calls[0]['args'][0])
+    narrowed = None
+    x = a
+    while x['k'] == 'ImplicitCastExpr' and x.get('c'):
+        inner = fn.N(x['c'][0])
+        if x.get('ck') == 'IntegralCast':
+            wt, ws = int_type((x.get('t') or '').replace('const ', '')), int_type((inner.get('t') or '').replace('const ', ''))
+            if wt and ws and wt[0] < ws[0]:
+                narrowed = (inner.get('t'), x.get('t'))
+        x = inner
+    src = fn.strip_all_casts(a)
+    rets = [e for _, e in fn.elements() if e['k'] == 'ReturnStmt' and e.get('c') and fn.strip_all_casts(fn.N(e['c'][0])).get('vid') == src.get('vid') and src.get('vid') is not None]
+    rt = int_type((fn.f.get('ret') or '').replace('const ', ''))
+    if narrowed and rets and rt and rt[0] > int_type(narrowed[1].replace('const ', ''))[0]:
+        run.violated('REVERSEPAIR', inst, fn.loc(calls[0]), 'getSlotBidiClass caches `%s` narrowed from %s to %s and returns the un-narrowed value: the first query of a slot and every later one can '
+                     'disagree (a glyph attribute of 528 is 528 once and 16 ever after), so the reversals that bracket a justification classify the same slot differently' % (fn.render(src), narrowed[0], narrowed[1]))
+    else:
+        run.held('REVERSEPAIR', inst, fn.loc(calls[0]), 'the cached and the returned value have the same width')
+
+
 def posdirbool(run, fx):
     """REVERSEPAIR: positionSlots compares the stream's current direction -- one bit -- with the direction it is asked for.  justify
     hands it the segment's whole direction byte (rtl bit, mirroring / bidi flags, the 'currently reversed' bit 64), so the value that
@@ -896,6 +929,8 @@ def run(run):
             run.held('LINEENDPAIR', inst_le, ale_.where(), '%d abstract executions' % cases_)
     except AnalysisBroken as ex:
         run.broken('LINEENDPAIR', inst_le, str(ex), '')
+    from . import c02 as c02_
+    c02_.localarrays(run, fx, 'UNDO')          # 'every call returns': the per-level totals of justify are not a fixed stack array (shared with C02)
     from . import c16 as c16_
     from .util import OnlyRules
     c16_.dtorguards(OnlyRules(run, ['OWNFIELD'], {'OWNFIELD': 'UNDO'}), fx)        # 'gr_seg_destroy still releases the whole segment' (shared with C16)
@@ -943,6 +978,7 @@ def run(run):
     nullwalk(run, fx)
     posreverse(run, fx)
     posdirbool(run, fx)
+    bidicache(run, fx)
     c03.nomutpos(run, vm)
     from . import c02
     c02.advidx(run, fx)      # justify positions with the caller's gr_font: the hinted-advance cache index (shared with C02)
